@@ -77,6 +77,15 @@ pub fn run(engine: &str, prop: &str, path: &str, v: &Value) -> i32 {
             let probes: Vec<&str> = if fmt == Format::Apx { vec!["a", "b", "a1", "_", "c", "1a", "", "arg"] } else { vec!["0", "1", "2", "3", "4", "-1", "x", ""] };
             verdict(prop, path, twice(&|| check_input(fmt, &bytes, &probes).err().map(|(w, m)| format!("[{}] {}", w, m))))
         }
+        "long_session_external" => {
+            let name = case["session"].as_str().unwrap_or("").to_string();
+            let th = case["thorough"].as_bool().unwrap_or(false);
+            println!("case: scripted session {} through ExternalSatSolver with the stand-in program logging every instance", name);
+            verdict(prop, path, twice(&|| {
+                let acc = crate::checks::c16::long_sessions_external_named(th, Some(&name));
+                acc.violations.into_iter().next().map(|(_, (_, v))| v.message)
+            }))
+        }
         "check_cmd" => {
             use crate::checks::c13::{check_cmd_one, Format};
             let bytes: Vec<u8> = case["bytes"].as_array().unwrap().iter().map(|b| b.as_u64().unwrap() as u8).collect();
